@@ -202,6 +202,65 @@ def committed_exits(S, fn, value=0):
     return out
 
 
+def breakpoints(prog, fn, lo, hi, _seen=None):
+    """Every integer the function (and the functions / const tables it reaches) can compare an argument with, each with
+    its two neighbours, plus the ends of [lo, hi]: between two consecutive breakpoints a function that only compares its
+    argument with these constants behaves uniformly.  Used to evaluate a classification over its whole integer domain by
+    its finitely many regions (quick tier); the thorough tier enumerates the domain itself where that is affordable."""
+    _seen = _seen if _seen is not None else set()
+    vals = set()
+    if fn.name in _seen:
+        return vals
+    _seen.add(fn.name)
+
+    def ints(v):
+        if isinstance(v, bool):
+            return
+        if isinstance(v, int):
+            vals.add(v)
+        elif isinstance(v, dict):
+            for x in v.values():
+                ints(x)
+        elif isinstance(v, list):
+            for x in v:
+                ints(x)
+    for n in fn.nodes.values():
+        if n.k in ("IntegerLiteral", "CharacterLiteral"):
+            ints(n.get("val"))
+        if "cv" in n:
+            ints(n["cv"])
+        if n.k == "CaseStmt":
+            ints(n.get("case_lo"))
+            ints(n.get("case_hi"))
+        if n.k == "DeclRefExpr":
+            d = n.get("decl", {})
+            if d.get("kind") == "enumconst":
+                ints(d.get("val"))
+            elif d.get("kind") == "global":
+                g = prog.global_var(d.get("name"))
+                if g is not None:
+                    ints(g.get("init"))
+            elif d.get("kind") == "static_local":
+                for tu in prog.tus:
+                    for sl in tu.static_locals:
+                        if sl.get("name") == d.get("name") and sl.get("function") == fn.name:
+                            ints(sl.get("init"))
+        if n.k == "CallExpr" and n.get("callee"):
+            g = prog.fn(n["callee"])
+            if g is not None:
+                vals |= breakpoints(prog, g, lo, hi, _seen)
+    for b in fn.blocks.values():
+        if b.label and b.label.get("k") == "CaseStmt":
+            ints(b.label.get("lo"))
+            ints(b.label.get("hi"))
+    out = {lo, hi}
+    for v in vals:
+        for w in (v - 1, v, v + 1, -v - 1, -v, -v + 1):
+            if lo <= w <= hi:
+                out.add(w)
+    return out
+
+
 def path_to(fn, target_block_ids, start=None):
     """any block path from entry to one of the target blocks, for reports"""
     pass
